@@ -1,1 +1,89 @@
 // Suites that need access to items private to this module (feature ipa-verif, test builds only).
+
+// ---------------------------------------------------------------- C12 (privacy noise): accessors for private items
+// of `protocol::dp` (`ShiftedTruncatedDiscreteLaplace`, `MAX_EPSILON`).
+
+use crate::ipa_verif::c12::ScriptRng as C12ScriptRng;
+
+pub fn c12_max_epsilon() -> f64 {
+    super::MAX_EPSILON
+}
+
+/// `ShiftedTruncatedDiscreteLaplace::new(params, bit_size)` then `sample_shares::<_, OV>` with the scripted RNG.
+/// Returns `(shift, sample drawn, left, right, u64s consumed)`.
+pub fn c12_sample_shares(
+    epsilon: f64,
+    delta: f64,
+    cap: u32,
+    bit_size: u32,
+    ov_bits: u32,
+    dir_left: bool,
+    script: Vec<u64>,
+) -> Result<(u32, u128, u128, usize), String> {
+    use crate::{
+        ff::{
+            U128Conversions,
+            boolean_array::{BA3, BA8, BA16, BA20, BA32, BA64},
+        },
+        helpers::Direction,
+        secret_sharing::replicated::ReplicatedSecretSharing,
+    };
+    let params = super::NoiseParams {
+        epsilon,
+        delta,
+        per_user_credit_cap: cap,
+        ..Default::default()
+    };
+    let d = super::ShiftedTruncatedDiscreteLaplace::new(&params, bit_size).map_err(|e| format!("{e:?}"))?;
+    let mut rng = C12ScriptRng { script, pos: 0 };
+    let dir = if dir_left { Direction::Left } else { Direction::Right };
+    macro_rules! go {
+        ($OV:ty) => {{
+            let s: super::Replicated<$OV> = d.sample_shares(&mut rng, dir);
+            (s.left().as_u128(), s.right().as_u128())
+        }};
+    }
+    let (l, r) = match ov_bits {
+        3 => go!(BA3),
+        8 => go!(BA8),
+        16 => go!(BA16),
+        20 => go!(BA20),
+        32 => go!(BA32),
+        64 => go!(BA64),
+        w => panic!("harness: no OV of {w} bits"),
+    };
+    Ok((d.shift, l, r, rng.pos))
+}
+
+/// requests that need private items of `protocol::dp`
+pub fn c12_exec_private(req: &str) -> String {
+    use crate::ipa_verif::proto::parse_nat_list;
+    let t: Vec<&str> = req.split(' ').collect();
+    let f = |s: &str| f64::from_bits(s.parse::<u64>().unwrap());
+    match t[0] {
+        "c12.maxeps" => c12_max_epsilon().to_bits().to_string(),
+        "c12.shares" => {
+            let (eps, delta, cap) = (f(t[1]), f(t[2]), t[3].parse::<u32>().unwrap());
+            let (bit_size, ov_bits) = (t[7].parse::<u32>().unwrap(), t[8].parse::<u32>().unwrap());
+            let script: Vec<u64> = parse_nat_list(t[10]);
+            match c12_sample_shares(eps, delta, cap, bit_size, ov_bits, t[9] == "L", script) {
+                Ok((shift, l, r, used)) => format!("{shift} {l} {r} {used}"),
+                Err(e) => format!("err {}", e.split('(').next().unwrap()),
+            }
+        }
+        _ => panic!("harness: unknown request {req}"),
+    }
+}
+
+#[test]
+fn verif_c12_shares() {
+    crate::ipa_verif::proto::run_suite(
+        "c12_shares",
+        |rng, th| {
+            let mut o = vec!["c12.maxeps".to_string()];
+            crate::ipa_verif::c12::gen_shares(rng, th, &mut o);
+            o
+        },
+        c12_exec_private,
+    );
+}
